@@ -31,6 +31,7 @@ func main() {
 	hk.Main(&hk.Component{Name: "reqpaths", Rule: "clients {Streamable with GET SSE, legacy SSE} x all 2^5 combinations of {static headers (2 keys, 3 values), before-request function, " +
 		"custom HTTPReqHandler, custom path (client URL points at a wrong path, WithClientPath at the served one), custom http.Client} x call histories " +
 		"{initialize, initialize failing at its first request (503 / useless content type / refused by the before-request function) and repeated with another context value, tools/list, tools/list retried after a 503, notification, answer to a server-issued roots/list and to an unknown server request, session DELETE; " +
+		"a tools/list or a notification answered 404 / 400 / 401 / 403 / 500 / 503 at a chosen position, the server going on normally afterwards; session ids over the whole visible-ASCII alphabet 0x21..0x7E (leading / trailing '~', long ids); " +
 		"Streamable: roots/list under a slow roots provider while the server closes / resets the listening stream or the stream is replaced, stream reopened} " +
 		"(per combination: the shortest history emitting each request kind and the full history; edge histories; seeded random histories) against a recording reference server; plus, for every combination with a " +
 		"before-request function and every request kind, a run in which the function fails for that kind; plus clients built from option LISTS in which " +
@@ -329,6 +330,9 @@ func (sc *scenario) waitTargetOrRec(pred func(rec) bool) {
 
 func (sc *scenario) open(sid string) error {
 	legacy := sc.client == "sse"
+	if legacy {
+		sid = urlSafe(sid)
+	}
 	sc.srv = newRefServer(legacy, sid)
 	sc.changed = make(chan struct{})
 	curScenario.Store(sc)
@@ -465,6 +469,17 @@ func (sc *scenario) do(op string, i int, nextID *int) opWindow {
 		sc.srv.fail503.Store(false)
 	case "notify":
 		w.Err = sc.cl.SendRootsListChangedNotification(ctx)
+	case "toolsErr404", "toolsErr400", "toolsErr401", "toolsErr403", "toolsErr500", "toolsErr503":
+		// the server answers this tools/list with an error status and then goes on normally
+		code, _ := strconv.Atoi(strings.TrimPrefix(op, "toolsErr"))
+		sc.srv.failTools.Store(int32(code))
+		_, w.Err = sc.cl.ListTools(ctx, &mcp.ListToolsRequest{})
+		sc.srv.failTools.Store(0)
+	case "notifyErr404", "notifyErr400", "notifyErr401", "notifyErr403", "notifyErr500", "notifyErr503":
+		code, _ := strconv.Atoi(strings.TrimPrefix(op, "notifyErr"))
+		sc.srv.failNotif.Store(int32(code))
+		w.Err = sc.cl.SendRootsListChangedNotification(ctx)
+		sc.srv.failNotif.Store(0)
 	case "roots", "rootsUnknown":
 		if !sc.srv.alive() {
 			w.Err = errors.New("no listening stream to push on")
@@ -981,6 +996,50 @@ func withoutRefusals(h []string, cf cfg) []string {
 	return out
 }
 
+// visibleSid: the n-th session id. Ids range over the whole visible-ASCII alphabet 0x21..0x7E (every character many
+// times over a run: a window of 9 characters sliding by 7), some start or end with '~' / '!' / '"', every 10th is
+// long (the whole alphabet twice). The legacy server puts its id into the endpoint's query: urlSafe() maps it.
+func visibleSid(seed int64, n int) string {
+	const first, last = 0x21, 0x7e
+	span := last - first + 1
+	var b []byte
+	for i := 0; i < 9; i++ {
+		b = append(b, byte(first+(n*7+i)%span))
+	}
+	id := fmt.Sprintf("s%d.%d.", seed, n) + string(b)
+	switch n % 5 {
+	case 0:
+		id = "~" + id
+	case 1:
+		id += "~"
+	case 2:
+		id = "!" + id + "\""
+	}
+	if n%10 == 3 {
+		var all []byte
+		for k := 0; k < 2*span; k++ {
+			all = append(all, byte(first+k%span))
+		}
+		id += string(all)
+	}
+	return id
+}
+
+// urlSafe: the same id restricted to characters that travel unchanged in a URL query.
+func urlSafe(id string) string {
+	var b []byte
+	for i := 0; i < len(id); i++ {
+		c := id[i]
+		switch {
+		case c >= '0' && c <= '9', c >= 'a' && c <= 'z', c >= 'A' && c <= 'Z', c == '-', c == '.', c == '_', c == '~':
+			b = append(b, c)
+		default:
+			b = append(b, "0123456789abcdef"[c>>4], "0123456789abcdef"[c&15])
+		}
+	}
+	return string(b)
+}
+
 // ---------------------------------------------------------------- the search
 
 var fullHistory = []string{"initialize", "tools", "toolsRetry", "notify", "roots", "rootsUnknown", "terminate"}
@@ -990,7 +1049,7 @@ func run(c *hk.Ctx) {
 	// that "default handler" and "no handler at all" can be told apart on the wire
 	mcp.NewHTTPReqHandler = func(string, ...mcp.HTTPReqHandlerOption) mcp.HTTPReqHandler { return &markHandler{mark: "factory"} }
 	sidN := 0
-	sid := func() string { sidN++; return fmt.Sprintf("verif-sid-%d-%d", c.Seed, sidN) }
+	sid := func() string { sidN++; return visibleSid(c.Seed, sidN) }
 	clients := []string{"streamable", "sse"}
 	cfgs := allCfgs()
 	sort.SliceStable(cfgs, func(i, j int) bool { return cfgs[i].bits() < cfgs[j].bits() })
@@ -1051,6 +1110,27 @@ func run(c *hk.Ctx) {
 			}
 		}
 	}
+	// 2b'. the server answers one request / notification (at a chosen position) with an error status and then goes on:
+	//      everything later still carries the issued session id, the static headers and meets the before-request function
+	for _, code := range []string{"404", "400", "401", "403", "500", "503"} {
+		hs := [][]string{
+			{"initialize", "toolsErr" + code, "tools", "notify", "roots", "terminate"},
+			{"initialize", "tools", "notifyErr" + code, "notify", "tools", "rootsUnknown", "terminate"},
+			{"initialize", "toolsErr" + code, "notifyErr" + code, "toolsErr" + code, "roots", "tools", "notify", "terminate", "tools"},
+		}
+		for i, h := range hs {
+			for _, cl := range clients {
+				for _, k := range c.Rng.Perm(32)[:6] {
+					runHistory(c, cl, cfgs[k], false, h, sid())
+				}
+				// always: everything configured, and nothing configured
+				if i == 0 {
+					runHistory(c, cl, cfg{true, true, true, true, true}, false, h, sid())
+					runHistory(c, cl, cfg{}, false, h, sid())
+				}
+			}
+		}
+	}
 	// 2c. Streamable: the server ends (closes / resets) the listening stream while a slow roots provider is still working
 	//     on the request it has just sent; the stream is reopened; the stream is replaced under a slow provider
 	ended := [][]string{
@@ -1098,8 +1178,9 @@ func run(c *hk.Ctx) {
 	if c.Thorough() {
 		nRand, maxLen = 4000, 20
 	}
-	alphabet := []string{"tools", "toolsRetry", "notify", "roots", "rootsUnknown", "terminate", "initialize", "rootsSlowEnd", "rootsSlowReset", "reopen", "rootsSlowReplace"}
-	weights := []int{4, 2, 3, 3, 2, 1, 1, 1, 1, 2, 1}
+	alphabet := []string{"tools", "toolsRetry", "notify", "roots", "rootsUnknown", "terminate", "initialize", "rootsSlowEnd", "rootsSlowReset", "reopen", "rootsSlowReplace", "toolsErr", "notifyErr"}
+	weights := []int{4, 2, 3, 3, 2, 1, 1, 1, 1, 2, 1, 2, 1}
+	codes := []string{"404", "400", "401", "403", "500", "503"}
 	total := 0
 	for _, w := range weights {
 		total += w
@@ -1126,6 +1207,13 @@ func run(c *hk.Ctx) {
 					op := alphabet[k]
 					if op == "toolsRetry" && !retry {
 						op = "tools"
+					}
+					if op == "toolsErr" || op == "notifyErr" {
+						if retry { // with a retry policy an error status may be retried: that is toolsRetry's subject
+							op = strings.TrimSuffix(op, "Err")
+						} else {
+							op += codes[c.Rng.Intn(len(codes))]
+						}
 					}
 					switch op {
 					case "rootsSlowEnd", "rootsSlowReset", "reopen", "rootsSlowReplace":
